@@ -684,7 +684,8 @@ impl<'a> Run<'a> {
             }
             RrStep::Close => {
                 if let Some(tx) = self.tx.as_mut() {
-                    tx.close_channel();
+                    // as Server::shutdown does it (see rsim/pubsub.rs)
+                    selium_server::topic::Sender::<Frame, SeliumError>::ReqRep(tx.clone()).close_channel();
                     self.closed = true;
                     self.out.fault("registration_channel_closed");
                 }
@@ -944,6 +945,16 @@ fn finish(mut run: Run<'_>, opts: &ExecOpts) -> Outcome {
             if !w.streams[n_req + q].queue.is_empty() {
                 run.out.violate(prop, "input-not-consumed", "reqrep-replier-stream", format!("replier {q}: {} replies still waiting in its stream at quiescence", w.streams[n_req + q].queue.len()));
             }
+        }
+    }
+    // A replier that sent frames of the wrong kind may be dropped; if the router keeps it bound
+    // (its stream object is still alive), it has to keep reading it: frames left waiting in the
+    // stream of a bound replier at quiescence are a lost wake-up whoever the replier is.
+    if checking && alive && !run.closed && registered_reps.len() == 1 && hostile {
+        let q = registered_reps[0];
+        let st = &w.streams[n_req + q];
+        if !w.sinks[n_req + q].errored && !run.rep_ended[q] && !st.dropped && run.rep_settled_at[q].is_some() && !st.queue.is_empty() {
+            run.out.violate(prop, "input-not-consumed", "reqrep-replier-stream-after-odd-frame", format!("replier {q} sent a frame of an unexpected kind and was kept bound, yet {} of its later frames are still waiting in its stream at quiescence", st.queue.len()));
         }
     }
     if checking && alive && !run.closed && !hostile {
